@@ -54,8 +54,14 @@ class TasksRun:
                 await anyio.sleep(spec.get("close_ticks", 0) * TICK)
             run.log("taskClosed", tid)
 
-        async def body() -> None:
+        async def body(*, task_status: Any = None) -> None:
             add_teardown_callback(closer)
+            if spec.get("pre_reg") is not None:
+                # the task publishes something of its own on the owner (with a teardown callback) before it
+                # reports that it has started: that callback was registered before the task's finalizer
+                current_context().parent.add_teardown_callback(run.make_cb({"id": spec["pre_reg"], "raises": None}))
+                await anyio.lowlevel.checkpoint()
+                task_status.started()
             run.log("taskSaw", tid, saw())
             cancelled = anyio.get_cancelled_exc_class()
             beh = spec["beh"]
@@ -74,13 +80,33 @@ class TasksRun:
                     for _ in range(beh.get("until", 0)):
                         await anyio.sleep(TICK)
                         run.log("cleanupTick", tid)
+                run.probe_owner_usable(tid)
                 run.log("taskSaw", tid, saw())
+                if beh.get("excOnCancel") is not None:
+                    # the clean-up itself fails: an exception escapes the task while it is being cancelled
+                    run.log("taskEnded", tid, beh["excOnCancel"])
+                    raise EXN[beh["excOnCancel"]]() from None
                 run.log("taskEnded", tid, None)
                 raise
             run.log("taskSaw", tid, saw())
             run.log("taskEnded", tid, None)
 
+        if spec.get("pre_reg") is None:
+            async def plain_body() -> None:
+                await body()
+
+            return plain_body
         return body
+
+    def probe_owner_usable(self, tid: int) -> None:
+        """C13: a root context waits for its service tasks inside its own exit, so while a task is still
+        cleaning up the context has not been closed yet - it is being torn down, and lookups are allowed."""
+        if self.case.get("nested") or self.root is None:
+            return
+        try:
+            self.root.get_resource_nowait(TYPES[0], "no_such_resource_x", optional=True)
+        except RuntimeError as e:
+            self.log("probeFailed", tid, f"the root context refused a lookup while its exit was still waiting for task {tid}: {e}")
 
     def make_action(self, spec: dict[str, Any], stop: anyio.Event) -> Any:
         a = spec["action"]
@@ -186,6 +212,7 @@ class TasksRun:
         try:
             with anyio.move_on_after(10.0 ** 7) as guard:
                 async with Context() as root:
+                    self.root = root
                     if self.case.get("nested"):
                         async with Context() as owner:
                             await self.setup(owner)
